@@ -51,9 +51,9 @@ Theorem C03_block_cheaters_graph : forall cap eb i e u bl st',
   J i -> elinv (i_st i) -> V (i_st i) -> guard i e true = None ->
   wf_new (length (l_vals (i_st i))) (l_idx (i_st i)) (vev (l_vals (i_st i)) e) ->
   process cap eb (aput (a_id e) e (i_es i)) (i_st i) e = (Ok u, bl, st') ->
-  forall b, In b bl -> b_atropos b <> 0 ->
+  forall b, In b bl ->
     b_cheaters b = visible_forkers (l_vals (i_st i)) ((a_id e, vev (l_vals (i_st i)) e) :: evs (l_idx (i_st i))) (b_atropos b).
-Proof. intros cap eb i e u bl st' HJ HI HV G W E b Hb Hz. exact (proj2 (accepted_blocks_graph cap eb i e u bl st' HJ HI HV G W E b Hb Hz)). Qed.
+Proof. intros cap eb i e u bl st' HJ HI HV G W E b Hb. exact (proj2 (accepted_blocks_graph cap eb i e u bl st' HJ HI HV G W E b Hb)). Qed.
 
 (* non-vacuity: a run with a forking validator; the second block lists it, and the executable
    specification (graph closure, spec/AbftSpec.v c03_trace) holds on the trace *)
